@@ -75,13 +75,13 @@ theorem flatten_is_product (hws : wellShaped p = true) (n s mult : ℕ) (hn : n 
 
 /-- both sides of a residual sum carry identical alive features (in every supported program) -/
 theorem residual_operands_identical (hl : computeLabels p = some l) (hws : wellShaped p = true)
-    (hsup : supported p = true) (hne : noExcluded p = true) (n a b : ℕ) (hn : n < p.length)
+    (hsup : supported p = true) (n a b : ℕ) (hn : n < p.length)
     (hop : p[n] = .add a b) :
     (aliveMasks p l α).getD a [] = (aliveMasks p l α).getD b [] ∧
     (aliveMasks p l α).getD n [] = (aliveMasks p l α).getD a [] := by
   have h := coherent_of_bookkeeping (V := ℕ) ⟨fun _ _ _ v => v, fun _ _ => 0, fun _ _ v => v,
     fun _ _ v => v, fun _ v => v, fun _ u v => u + v, fun _ _ v => v⟩ (fun n => List.replicate
-      (match p.getD n (.input 0) with | .input c => c | _ => 0) 0) p l α hl hws hsup hne
+      (match p.getD n (.input 0) with | .input c => c | _ => 0) 0) p l α hl hws hsup
     (by
       intro k hk
       unfold SemOK
@@ -93,12 +93,12 @@ theorem residual_operands_identical (hl : computeLabels p = some l) (hws : wellS
 
 /-- a depthwise convolution's alive outputs are the alive features of the tensor feeding it -/
 theorem depthwise_follows_input (hl : computeLabels p = some l) (hws : wellShaped p = true)
-    (hsup : supported p = true) (hne : noExcluded p = true) (n s : ℕ) (a : LAttr) (hn : n < p.length)
+    (hsup : supported p = true) (n s : ℕ) (a : LAttr) (hn : n < p.length)
     (hop : p[n] = .dw s a) :
     (aliveMasks p l α).getD n [] = (aliveMasks p l α).getD s [] := by
   have h := coherent_of_bookkeeping (V := ℕ) ⟨fun _ _ _ v => v, fun _ _ => 0, fun _ _ v => v,
     fun _ _ v => v, fun _ v => v, fun _ u v => u + v, fun _ _ v => v⟩ (fun n => List.replicate
-      (match p.getD n (.input 0) with | .input c => c | _ => 0) 0) p l α hl hws hsup hne
+      (match p.getD n (.input 0) with | .input c => c | _ => 0) 0) p l α hl hws hsup
     (by
       intro k hk
       unfold SemOK
